@@ -261,6 +261,7 @@ def run(chk, repo, tier):
     A17 = chk.rule('A17', 'ADVAN5/7: no guard of _find_rates skips a legal K<i><j> (output addressed as 0 or n+1)', floor=1)
     C01b.run_a17(chk, A17, repo)
     C01b.run_theta_sentinels(chk, repo, 'A18')
+    C01b.run_a19(chk, repo)
     from rules.C04 import run_a5
     run_a5(chk, A5, ['abbreviated_record.lark', 'code_record.lark', 'data_record.lark', 'option_record.lark',
                      'simulation_record.lark'])
